@@ -31,6 +31,15 @@ theorem asBool_le {v : Val} {s : St} {k k' : Bool → Res Val} (h : ∀ b, Res.l
     Res.le (asBool v s k) (asBool v s k') := by
   cases v <;> simp only [asBool] <;> first | exact h _ | exact Res.le_refl _
 
+theorem bothBranches_le {r1 r1' r2 r2' : Res Val} (s : St) (h1 : Res.le r1 r1') (h2 : Res.le r2 r2') :
+    Res.le (bothBranches r1 r2 s) (bothBranches r1' r2' s) := by
+  rcases h1 with h | h
+  · subst h; left; simp [bothBranches]
+  · subst h
+    rcases h2 with h | h
+    · subst h; left; cases r1 <;> simp [bothBranches]
+    · subst h; exact Res.le_refl _
+
 section
 variable {fns : List Fn}
 variable {rE rE' : Expr → St → Res Val} {rEs rEs' : List Expr → St → Res (List Val)}
@@ -72,10 +81,17 @@ theorem stepE_le (hE : ∀ x s, Res.le (rE x s) (rE' x s)) (hEs : ∀ x s, Res.l
   case idx a i => exact bind_le (hE _ _) fun _ _ => bind_le (hE _ _) fun _ _ => Res.le_refl _
   case enm t a => exact bind_le (hE _ _) fun _ _ => Res.le_refl _
   case ite c t e =>
-    refine bind_le (hE _ _) fun _ _ => asBool_le fun x => ?_
-    cases x
-    · exact inScope_le hB _ _
-    · exact inScope_le hB _ _
+    refine bind_le (hE _ _) fun vc s => ?_
+    have hb : Res.le (bothBranches (inScope rB t s) (inScope rB e s) s)
+        (bothBranches (inScope rB' t s) (inScope rB' e s) s) :=
+      bothBranches_le s (inScope_le hB _ _) (inScope_le hB _ _)
+    have ha : Res.le (asBool vc s fun x => if x then inScope rB t s else inScope rB e s)
+        (asBool vc s fun x => if x then inScope rB' t s else inScope rB' e s) := by
+      refine asBool_le fun x => ?_
+      cases x
+      · exact inScope_le hB _ _
+      · exact inScope_le hB _ _
+    cases vc <;> first | exact hb | exact ha
   case block b => exact inScope_le hB _ _
   case call f args =>
     refine bind_le (hEs _ _) fun vs s => ?_
